@@ -16,7 +16,9 @@ from mc.ref.calendar import RefCalendar
 TOGGLES = [
     "res15", "res10", "eff03", "eff15", "wkend", "leave", "vac", "limr", "limg", "limt", "gap", "prio", "alapE", "pin",
     "sc3", "sub", "month", "tz", "hours", "long", "r5", "deep", "dst", "rev", "shutdown", "night", "limmin", "many", "onstart", "cprio",
+    "tfirst", "allocrev", "inrev", "vac2",
 ]
+LAST = ("rev", "inrev")   # toggles that permute what the others built: applied last
 FIRST = ("month", "dst")   # toggles that move the window: applied first, dated attributes follow the window
 
 
@@ -176,6 +178,24 @@ def apply(spec, tg, n):
         r3["shift"] = "nt"
         r3.pop("hours", None)
         r3.pop("tz", None)
+    elif tg == "tfirst":
+        spec["tasks_first"] = True   # the whole task tree is written before the resources it allocates and restricts limits to
+    elif tg == "allocrev":
+        from mc.render import walk_tasks
+        for _f, t, _p in walk_tasks(spec["tasks"]):   # team members listed in the opposite order
+            if len(t.get("alloc") or []) > 1:
+                t["alloc"] = list(reversed(t["alloc"]))
+    elif tg == "inrev":
+        from mc.render import walk_tasks
+        for _f, t, _p in walk_tasks(spec["tasks"]):   # children of every container and entries of every depends list in the opposite order
+            if t.get("children"):
+                t["children"].reverse()
+            if len(t.get("deps") or []) > 1:
+                t["deps"].reverse()
+    elif tg == "vac2":
+        # days off of one kind written latest-first (project vacations, one resource's leaves)
+        spec.setdefault("vacations", []).extend([(_day(spec, 30), _day(spec, 32)), (_day(spec, 16), None)])
+        _res(spec, "r2").setdefault("leaves", []).extend([{"k": "leaves", "type": "annual", "a": _day(spec, 24)}, {"k": "leaves", "type": "annual", "a": _day(spec, 3)}])
     elif tg == "rev":
         spec["tasks"].reverse()   # dependents are declared before what they wait for (ties: declaration order)
     elif tg == "deep":
@@ -190,7 +210,7 @@ def apply(spec, tg, n):
 
 def to_spec(item):
     spec = copy.deepcopy(base(item["b"]))
-    ts = [t for t in item["t"] if t in FIRST] + [t for t in item["t"] if t not in FIRST and t != "rev"] + [t for t in item["t"] if t == "rev"]
+    ts = [t for t in item["t"] if t in FIRST] + [t for t in item["t"] if t not in FIRST and t not in LAST] + [t for t in item["t"] if t in LAST]
     for tg in ts:
         apply(spec, tg, item["b"])
     return spec
@@ -209,7 +229,8 @@ def universe(tier):
 # ---- core-dialect variant for C07 (forward, whole-slot efforts, slot-aligned gaps, no alternatives) ---------------
 
 TOGGLES7 = ["res30", "res15", "res10", "effhalf", "wkend", "leave", "vac", "limr", "limg", "limt", "gap", "prio", "pin", "month", "tz",
-            "hours", "long", "r5", "deep", "dst", "rev", "shutdown", "night", "limmin", "many", "onstart", "cprio"]
+            "hours", "long", "r5", "deep", "dst", "rev", "shutdown", "night", "limmin", "many", "onstart", "cprio",
+            "tfirst", "allocrev", "inrev", "vac2"]
 
 
 def to_spec7(item):
@@ -219,7 +240,7 @@ def to_spec7(item):
         if t.get("effort"):
             t["effort"] = max(60, int(round(t["effort"] / 60.0)) * 60)
         t.pop("alt", None)
-    ts = [t for t in item["t"] if t in FIRST] + [t for t in item["t"] if t not in FIRST and t != "rev"] + [t for t in item["t"] if t == "rev"]
+    ts = [t for t in item["t"] if t in FIRST] + [t for t in item["t"] if t not in FIRST and t not in LAST] + [t for t in item["t"] if t in LAST]
     for tg in ts:
         if tg == "res30":
             spec["res_min"] = 30
@@ -414,6 +435,6 @@ def sweep(ctx, st, prop):
 
 
 NOTE = ("'wide' family (all members with the compiled extensions, the members with <= 1 toggle - thorough <= 2 - again on the pure-Python fallbacks): 2 ten-task base projects (3-level task and resource trees, team, alternative, milestone, container edges, "
-        "window across the year boundary) x every subset of <= 2 (thorough: <= 3) of 30 feature toggles (resolution 15/10 min, efficiency "
+        "window across the year boundary) x every subset of <= 2 (thorough: <= 3) of 34 feature toggles (resolution 15/10 min, efficiency "
         "0.3/1.5, weekend-only resource, leaves, vacation, resource/group/task limits, gaps, priorities, ALAP task, container pin, third "
-        "scenario, sub-slot efforts, month boundary, time zone, split hours, multi-week effort, fifth resource, 5-level nesting, a window across two daylight-saving switches with zoned seven-day resources, reversed declaration order, a five-week project vacation, a Sunday-to-Thursday night shift, limits in minutes that are no round number of hours, eleven or more top-level tasks, an on-start edge followed by a plain edge, priorities inherited from containers)")
+        "scenario, sub-slot efforts, month boundary, time zone, split hours, multi-week effort, fifth resource, 5-level nesting, a window across two daylight-saving switches with zoned seven-day resources, reversed declaration order, a five-week project vacation, a Sunday-to-Thursday night shift, limits in minutes that are no round number of hours, eleven or more top-level tasks, an on-start edge followed by a plain edge, priorities inherited from containers, the task tree written before the resources, team members listed in the opposite order, children and depends entries in the opposite order, days off written latest-first)")
